@@ -128,6 +128,8 @@ def _plateau_walk_back(fn_node):
     neighbours  (while p > 0 and V[p-1] == V[p]: p -= 1), 'plain' if it is len(X) - 1 itself, None otherwise"""
     tests = [n for n in ast.walk(fn_node) if isinstance(n, ast.Compare) and len(n.ops) == 1 and isinstance(n.ops[0], (ast.In, ast.NotIn))]
     for t in tests:
+        if isinstance(t.left, ast.IfExp) and _vectorised_walk(fn_node, t.left):
+            return "walk"
         if not isinstance(t.left, ast.Name):
             continue
         p = t.left.id
@@ -144,9 +146,45 @@ def _plateau_walk_back(fn_node):
             if dec and eq and len(w.body) == 1 and len(init) == 1 and norm_text(init[0].value).startswith("len(") and \
                     norm_text(init[0].value).endswith("- 1"):
                 return "walk"
+        # vectorised form of the same walk: D = flatnonzero(V[:-1] != V[-1]);  p = D[-1] + 1 if D.size > 0 else 0
+        # (the position directly behind the last sample that differs from the final value)
+        if len(init) == 1 and _vectorised_walk(fn_node, init[0].value):
+            return "walk"
         if len(init) == 1 and norm_text(init[0].value).startswith("len(") and norm_text(init[0].value).endswith("- 1"):
             return "plain"
     return None
+
+
+def _vectorised_walk(fn_node, e):
+    from ..astutil import inline_single_defs
+    if not isinstance(e, ast.IfExp) or const_value(e.orelse) != 0:
+        return False
+    body = e.body
+    if not (isinstance(body, ast.BinOp) and isinstance(body.op, ast.Add) and const_value(body.right) == 1 and
+            isinstance(body.left, ast.Subscript) and const_value(body.left.slice) == -1 and isinstance(body.left.value, ast.Name)):
+        return False
+    dname = body.left.value.id
+    t = norm_text(e.test)
+    if t not in ("%s.size > 0" % dname, "0 < %s.size" % dname, "len(%s) > 0" % dname, "0 < len(%s)" % dname, "%s.size" % dname, "len(%s)" % dname,
+                 "%s.size != 0" % dname, "len(%s) != 0" % dname):
+        return False
+    d = inline_single_defs(fn_node, ast.Name(id=dname, ctx=ast.Load()), depth=2)
+    if isinstance(d, ast.Subscript) and const_value(d.slice) == 0 and isinstance(d.value, ast.Call) and \
+            (call_name(d.value) or "") in ("np.nonzero", "np.where"):
+        d = ast.Call(func=ast.Name(id="np.flatnonzero", ctx=ast.Load()), args=d.value.args, keywords=[])
+        cn = "np.flatnonzero"
+    else:
+        cn = call_name(d) if isinstance(d, ast.Call) else None
+    if cn != "np.flatnonzero" or len(d.args) != 1:
+        return False
+    c = d.args[0]
+    if not (isinstance(c, ast.Compare) and len(c.ops) == 1 and isinstance(c.ops[0], ast.NotEq)):
+        return False
+    l, r = c.left, c.comparators[0]
+    if isinstance(l, ast.Subscript) and const_value(l.slice) == -1:
+        l, r = r, l
+    return isinstance(l, ast.Subscript) and norm_text(l.slice) == ":-1" and isinstance(r, ast.Subscript) and const_value(r.slice) == -1 and \
+        norm_text(l.value) == norm_text(r.value)
 
 
 def _r1(ctx, rule="R-C04-1"):
